@@ -194,7 +194,7 @@ def run_nrt(spec, acc):
                 acc.violation(f'C07/nrt/accepted/{must}',
                               {'case': i, 'send': M.srepr(pristine),
                                'context': ctx})
-                continue
+                # it is in the score now: keep the expectation aligned
             n_acc += 1
             acc.count(f'nrt_sends/{ctx}')
             b = [0.0, pristine] if kind == 'msg' else pristine
@@ -359,17 +359,18 @@ def run_nrt(spec, acc):
                 tree = M.expect_bundle(_as_lists(e), lambda L: None)
             except (M.MustRefuse, M.Undecided):
                 tree = None
-            bad = None
+            bad = detail = None
             if tree is not None:
                 mism = M.compare(d, tree)
                 if mism:
-                    bad = 'content/' + sorted(set(mism))[0]
+                    bad = 'content'
+                    detail = sorted(set(mism))
             if bad is None:
                 bad = _cmp_tt(d, e)
             if bad:
                 viol(f'C07/nrt/raw-differs-from-list/{bad}',
                      {'position': k, 'list_entry': M.srepr(e),
-                      'raw_entry': repr(d)[:500]})
+                      'raw_entry': repr(d)[:500], 'detail': detail})
                 break
             # completion bundles inside blobs: stamped from the same instant
             if ok_list and exp_sorted[k][3] is not None:
